@@ -46,7 +46,7 @@ ENGINE = "E1-SEQ"
 SHARDS = {"quick": 8, "thorough": 16}
 RULE = (
     "Part A: product grammar of well-framed requests (method x request_version x extra metadata key/value x column shape "
-    "x rows), chained on live connections with a probe after each; Part S: 2 methods x 16 region contents behind a "
+    "x rows), chained on live connections with a probe after each; Part S: 2 methods x 23 region contents / pointer-key shapes behind a "
     "well-framed shm pointer request + probe, each in a forked child; Part B: all prefixes and single-byte substitutions of a "
     "valid request. non-trivial = request that differs from the valid one and was answered/ended by the real serve loop; "
     "distinct = grammar tuple"
@@ -453,6 +453,7 @@ def part_s_cases() -> list[dict[str, Any]]:
     contents = [
         "valid", "zeros64", "ones64", "text64", "empty", "truncated-half", "truncated-8", "other:int32", "other:string", "other:large-string+dict",
         "other:dict-only", "other:two-int64", "other:declared-of-the-other-method", "valid-then-garbage", "offset-past-end", "length-past-end",
+        "no-length-key", "no-offset-key", "offset-not-a-number", "length-negative", "tiny-segment-8", "tiny-segment-24", "segment-size-lie",
     ]
     return [{"part": "S", "method": m, "content": c} for m in ("plain", "tagged") for c in contents]
 
@@ -467,7 +468,10 @@ def _s_payload(method: str, content: str) -> tuple[Any, bytes | None]:
             schema=pa.schema([pa.field("a", pa.int64(), nullable=False), pa.field("e", d, nullable=False)]),
         ),
     }
-    if content in ("valid", "truncated-half", "truncated-8", "valid-then-garbage", "offset-past-end", "length-past-end"):
+    if content in (
+        "valid", "truncated-half", "truncated-8", "valid-then-garbage", "offset-past-end", "length-past-end", "no-length-key", "no-offset-key",
+        "offset-not-a-number", "length-negative", "tiny-segment-8", "tiny-segment-24", "segment-size-lie",
+    ):
         return decl[method](), None
     if content == "zeros64":
         return None, b"\x00" * 64
@@ -527,6 +531,22 @@ def _s_child(case: dict[str, Any]) -> dict[str, Any]:
         pb, pcm = make_shm_pointer_batch(psch, off, ln)
         md = {b"vgi_rpc.shm_segment_name": seg.name.encode(), b"vgi_rpc.shm_segment_size": str(seg.size).encode()}
         md.update(dict(pcm.items()))
+        tiny = None
+        if content == "no-length-key":
+            del md[b"vgi_rpc.shm_length"]
+        elif content == "no-offset-key":
+            del md[b"vgi_rpc.shm_offset"]
+        elif content == "offset-not-a-number":
+            md[b"vgi_rpc.shm_offset"] = b"12x"
+        elif content == "length-negative":
+            md[b"vgi_rpc.shm_length"] = b"-64"
+        elif content == "segment-size-lie":
+            md[b"vgi_rpc.shm_segment_size"] = str(seg.size * 4).encode()
+        elif content.startswith("tiny-segment-"):
+            # a real, client-owned POSIX segment that is too small to hold the allocator header
+            tiny = shared_memory.SharedMemory(create=True, size=int(content.rsplit("-", 1)[1]))
+            md[b"vgi_rpc.shm_segment_name"] = tiny.name.encode()
+            md[b"vgi_rpc.shm_segment_size"] = str(tiny.size).encode()
         req = raw.frame_request(method, pb, metadata=md)
         probe = raw.frame_request("plain", pa.RecordBatch.from_arrays([pa.array([4242], pa.int64())], schema=rpc_methods(ShmSvc)["plain"].params_schema))
         ct, st = mem.make_mem_pair()
@@ -549,6 +569,9 @@ def _s_child(case: dict[str, Any]) -> dict[str, Any]:
             except Exception as e:  # noqa: BLE001
                 out["answers"].append({"undecodable": f"{type(e).__name__}: {str(e)[:100]}"})
                 break
+        if tiny is not None:
+            tiny.close()
+            tiny.unlink()
         return out
     finally:
         for fn in (seg.unlink, seg.close):
